@@ -47,6 +47,8 @@ Sgn(x) == IF x < 0 THEN -1 ELSE 1
 TruncDiv(a, b) == Sgn(a) * Sgn(b) * (Abs(a) \div Abs(b))      \* C division
 SetMin(S) == CHOOSE x \in S : \A y \in S : x <= y
 
+\* TLC re-evaluates a LET definition at every use but evaluates an operator argument once: values
+\* that are used several times are therefore passed on as arguments of a helper operator (name_).
 Seqify(f) == f \o <<>>      \* TLC: evaluate a function constructor over 1..n once, into a plain tuple
 RECURSIVE SumSeq(_)
 SumSeq(s) == IF s = <<>> THEN 0 ELSE Head(s) + SumSeq(Tail(s))
@@ -93,105 +95,103 @@ AdjRef(x, n, neg) ==     \* PySlice_AdjustIndices, one bound
   IF x < 0 THEN (IF x + n < 0 THEN (IF neg THEN -1 ELSE 0) ELSE x + n)
   ELSE IF x >= n THEN (IF neg THEN n - 1 ELSE n) ELSE x
 
-SliceRef(n, a, b, c) ==  \* c # 0
-  LET step  == IF c = NoneV THEN 1 ELSE c
-      neg   == step < 0
-      start == AdjRef(IF a = NoneV THEN (IF neg THEN Big ELSE 0) ELSE a, n, neg)       \* PySlice_Unpack defaults
-      stop  == AdjRef(IF b = NoneV THEN (IF neg THEN -Big ELSE Big) ELSE b, n, neg)
-      len   == IF neg THEN (IF stop < start THEN (start - stop - 1) \div (-step) + 1 ELSE 0)
-                      ELSE (IF start < stop THEN (stop - start - 1) \div step + 1 ELSE 0)
-  IN [start |-> start, stop |-> stop, len |-> len, step |-> step]
+SliceRef_(start, stop, step) ==     \* PySlice_AdjustIndices: the length
+  [start |-> start, stop |-> stop, step |-> step,
+   len |-> IF step < 0 THEN (IF stop < start THEN (start - stop - 1) \div (-step) + 1 ELSE 0)
+                       ELSE (IF start < stop THEN (stop - start - 1) \div step + 1 ELSE 0)]
+SliceRefS_(n, a, b, step) ==        \* PySlice_Unpack defaults, then the adjustment of both bounds
+  SliceRef_(AdjRef(IF a = NoneV THEN (IF step < 0 THEN Big ELSE 0) ELSE a, n, step < 0),
+            AdjRef(IF b = NoneV THEN (IF step < 0 THEN -Big ELSE Big) ELSE b, n, step < 0), step)
+SliceRef(n, a, b, c) == SliceRefS_(n, a, b, IF c = NoneV THEN 1 ELSE c)     \* c # 0
 
+OutOfSlice_(d, r) == Out("", r.start * d.s, TRUE, r.len, d.s * r.step)
+IntIndex_(d, i) == IF ~(0 <= i /\ i < d.n) THEN Out("IndexError", 0, FALSE, 0, 0) ELSE Out("", i * d.s, FALSE, 0, 0)
 AxisRef(d, it) ==
   IF it.k = "n" THEN Out("", 0, TRUE, 1, 0)
   ELSE IF it.k = "i" THEN
-    LET i == IF it.a < 0 THEN it.a + d.n ELSE it.a
-    IN IF i < 0 \/ i >= d.n THEN Out("IndexError", 0, FALSE, 0, 0) ELSE Out("", i * d.s, FALSE, 0, 0)
+    IntIndex_(d, IF it.a < 0 THEN it.a + d.n ELSE it.a)
   ELSE IF it.c = 0 THEN Out("ValueError", 0, FALSE, 0, 0)
-  ELSE LET r == SliceRef(d.n, it.a, it.b, it.c) IN Out("", r.start * d.s, TRUE, r.len, d.s * r.step)
+  ELSE OutOfSlice_(d, SliceRef(d.n, it.a, it.b, it.c))
 
 \* one Ellipsis stands for the axes that have no item of their own; without one they are appended
-Expand(e, nd) ==
-  LET miss == nd - NReal(e)
-      fill == Seqify([q \in 1..miss |-> FullSl])
-      ep == {p \in DOMAIN e : e[p].k = "e"}
-  IN IF ep = {} THEN e \o fill
-     ELSE LET p == SetMin(ep) IN SubSeq(e, 1, p - 1) \o fill \o SubSeq(e, p + 1, Len(e))
+Fill(m) == Seqify([q \in 1..m |-> FullSl])
+Expand__(e, fill, p) == SubSeq(e, 1, p - 1) \o fill \o SubSeq(e, p + 1, Len(e))
+Expand_(e, fill, ep) == IF ep = {} THEN e \o fill ELSE Expand__(e, fill, SetMin(ep))
+Expand(e, nd) == Expand_(e, Fill(nd - NReal(e)), {p \in DOMAIN e : e[p].k = "e"})
 
 ---------------------------------------------------------------------------
 (* implementation-shaped *)
-ImplSlice(n, a, b, c, fc, fd) ==    \* the is_slice branch; have_x is (x # NoneV); result as SliceRef or an error
-  LET hk   == c # NoneV
-      step == IF hk THEN c ELSE 1
-      neg  == hk /\ c < 0                                    \* negative_step
-      low  == IF fc /\ neg THEN -1 ELSE 0                    \* fc: the clamp honours negative_step
-      start == IF a # NoneV
-               THEN (IF a < 0 THEN (IF a + n < 0 THEN low ELSE a + n)
-                     ELSE IF a >= n THEN (IF neg THEN n - 1 ELSE n) ELSE a)
-               ELSE (IF neg THEN n - 1 ELSE 0)
-      stop  == IF b # NoneV
-               THEN (IF b < 0 THEN (IF b + n < 0 THEN low ELSE b + n)
-                     ELSE IF b > n THEN n ELSE b)
-               ELSE (IF neg THEN -1 ELSE n)
-      diff == stop - start
-      q    == TruncDiv(diff, step)                           \* C: (stop - start) / step
-      q1   == IF diff - step * q # 0 THEN q + 1 ELSE q       \* "ceil"
-      asis == IF q1 < 0 THEN 0 ELSE q1
-      \* fd: no element when the bounds lie against the direction of the step
-      len  == IF fd /\ (diff = 0 \/ ((diff < 0) # (step < 0))) THEN 0 ELSE asis
-  IN [start |-> start, stop |-> stop, len |-> len, step |-> step]
+ImplLen_(diff, step, q, fd) ==      \* q is the C quotient (stop - start) / step
+  \* fd: no element when the bounds lie against the direction of the step
+  IF fd /\ (diff = 0 \/ ((diff < 0) # (step < 0))) THEN 0
+  ELSE IF diff - step * q # 0                                 \* "ceil"
+       THEN (IF q + 1 < 0 THEN 0 ELSE q + 1)
+       ELSE (IF q < 0 THEN 0 ELSE q)
+ImplSlice_(start, stop, step, fd) ==
+  [start |-> start, stop |-> stop, step |-> step, len |-> ImplLen_(stop - start, step, TruncDiv(stop - start, step), fd)]
+ImplSliceS_(n, a, b, step, neg, low, fd) ==   \* neg: negative_step; low: the lower clamp (fc: it honours negative_step)
+  ImplSlice_(IF a # NoneV
+             THEN (IF a < 0 THEN (IF a + n < 0 THEN low ELSE a + n)
+                   ELSE IF a >= n THEN (IF neg THEN n - 1 ELSE n) ELSE a)
+             ELSE (IF neg THEN n - 1 ELSE 0),
+             IF b # NoneV
+             THEN (IF b < 0 THEN (IF b + n < 0 THEN low ELSE b + n)
+                   ELSE IF b > n THEN n ELSE b)
+             ELSE (IF neg THEN -1 ELSE n),
+             step, fd)
+ImplSlice(n, a, b, c, fc, fd) ==    \* the is_slice branch; have_x is (x # NoneV); c # 0
+  ImplSliceS_(n, a, b, IF c # NoneV THEN c ELSE 1, c # NoneV /\ c < 0, IF fc /\ c # NoneV /\ c < 0 THEN -1 ELSE 0, fd)
 
 AxisImpl(d, it, fc, fd) ==
   IF it.k = "n" THEN Out("", 0, TRUE, 1, 0)
   ELSE IF it.k = "i" THEN          \* SliceIndex template / the !is_slice branch / buffer lookup
-    LET i == IF it.a < 0 THEN it.a + d.n ELSE it.a
-    IN IF ~(0 <= i /\ i < d.n) THEN Out("IndexError", 0, FALSE, 0, 0) ELSE Out("", i * d.s, FALSE, 0, 0)
+    IntIndex_(d, IF it.a < 0 THEN it.a + d.n ELSE it.a)
   ELSE IF it.c # NoneV /\ it.c = 0 THEN Out("ValueError", 0, FALSE, 0, 0)
   ELSE IF it = FullSl THEN Out("", 0, TRUE, d.n, d.s)      \* SimpleSlice template (object path: same result through the function)
-  ELSE LET r == ImplSlice(d.n, it.a, it.b, it.c, fc, fd) IN Out("", r.start * d.s, TRUE, r.len, d.s * r.step)
+  ELSE OutOfSlice_(d, ImplSlice(d.n, it.a, it.b, it.c, fc, fd))
 
 \* Compiler/MemoryView.py: unellipsify (typed path, index known at compile time)
-UnellC(e, nd) ==
-  LET nidx == Cardinality({p \in DOMAIN e : e[p].k # "n"})      \* n_indices (counts the Ellipsis)
-      ep == {p \in DOMAIN e : e[p].k = "e"}
-      first == IF ep = {} THEN 0 ELSE SetMin(ep)
-      res == Cat([p \in DOMAIN e |-> IF e[p].k = "e"
-                                      THEN (IF p = first THEN [q \in 1..(nd - nidx + 1) |-> FullSl] ELSE <<FullSl>>)
-                                      ELSE <<e[p]>>])
-      rl == Len(res) - Cardinality({p \in DOMAIN e : e[p].k = "n"})
-  IN IF rl < nd THEN res \o [q \in 1..(nd - rl) |-> FullSl] ELSE res
+UnellCPad_(res, nd, nnone) ==           \* result_length < ndim: pad with full slices
+  IF Len(res) - nnone < nd THEN res \o Fill(nd - (Len(res) - nnone)) ELSE res
+UnellC_(e, nd, nidx, first, nnone) ==   \* nidx: n_indices (counts the Ellipsis); first: position of the first Ellipsis or 0
+  UnellCPad_(Cat(Seqify([p \in DOMAIN e |-> IF e[p].k = "e"
+                                             THEN (IF p = first THEN Fill(nd - nidx + 1) ELSE <<FullSl>>)
+                                             ELSE <<e[p]>>])), nd, nnone)
+UnellCFirst_(ep) == IF ep = {} THEN 0 ELSE SetMin(ep)
+UnellC(e, nd) == UnellC_(e, nd, Cardinality({p \in DOMAIN e : e[p].k # "n"}), UnellCFirst_({p \in DOMAIN e : e[p].k = "e"}),
+                         Cardinality({p \in DOMAIN e : e[p].k = "n"}))
 
 \* Utility/MemoryView.pyx: _unellipsify_index_tuple (object path; None is rejected there)
-UnellR(e, nd) ==
-  LET L == Len(e)
-      ep == {p \in DOMAIN e : e[p].k = "e"}
-  IN IF ep # {} THEN
-       LET f == SetMin(ep) - 1            \* first_ellipsis_index (0-based)
-           ife == L - f                   \* indices_from_ellipsis
-           eend == nd - ife               \* ellipsis_end
-       IN Seqify([p \in 1..nd |-> LET idx == p - 1 j == idx - eend IN
-             IF idx < f THEN e[idx + 1]
-             ELSE IF j >= 1 /\ j <= ife - 1 /\ e[f + j + 1].k # "e" THEN e[f + j + 1]
-             ELSE FullSl])
-     ELSE e \o [q \in 1..(nd - L) |-> FullSl]
+UnellREll_(e, nd, f, ife, eend) ==   \* f: first_ellipsis_index (0-based); ife: indices_from_ellipsis; eend: ellipsis_end
+  Seqify([p \in 1..nd |->
+            IF p - 1 < f THEN e[p]
+            ELSE IF p - 1 - eend >= 1 /\ p - 1 - eend <= ife - 1 /\ e[f + (p - 1 - eend) + 1].k # "e" THEN e[f + (p - 1 - eend) + 1]
+            ELSE FullSl])
+UnellR_(e, nd, ep) ==
+  IF ep # {} THEN UnellREll_(e, nd, SetMin(ep) - 1, Len(e) - (SetMin(ep) - 1), nd - (Len(e) - (SetMin(ep) - 1)))
+  ELSE e \o Fill(nd - Len(e))
+UnellR(e, nd) == UnellR_(e, nd, {p \in DOMAIN e : e[p].k = "e"})
 
 ---------------------------------------------------------------------------
 (* applying an expanded expression: the p-th item that is not None takes axis p *)
 AxisOf(x, p) == Cardinality({q \in 1..p : x[q].k # "n"})
-Combine(view, outs) ==
-  LET errs == {p \in DOMAIN outs : outs[p].err # ""}
-  IN IF errs # {} THEN [err |-> outs[SetMin(errs)].err, off |-> 0, dims |-> <<>>]
-     ELSE LET kept == SelectSeq(outs, LAMBDA o : o.keep)
-          IN [err |-> "", off |-> view.off + SumSeq([p \in DOMAIN outs |-> outs[p].doff]),
-              dims |-> Seqify([q \in DOMAIN kept |-> [n |-> kept[q].n, s |-> kept[q].s]])]
+CombineOk_(view, outs, kept) ==
+  [err |-> "", off |-> view.off + SumSeq(Seqify([p \in DOMAIN outs |-> outs[p].doff])),
+   dims |-> Seqify([q \in DOMAIN kept |-> [n |-> kept[q].n, s |-> kept[q].s]])]
+Combine_(view, outs, errs) ==
+  IF errs # {} THEN [err |-> outs[SetMin(errs)].err, off |-> 0, dims |-> <<>>]      \* the first failing item decides
+  ELSE CombineOk_(view, outs, SelectSeq(outs, LAMBDA o : o.keep))
+Combine(view, outs) == Combine_(view, outs, {p \in DOMAIN outs : outs[p].err # ""})
 
-ApplyRef(view, e) ==
-  LET x == Expand(e, Len(view.dims))
-  IN Combine(view, Seqify([p \in DOMAIN x |-> AxisRef(IF x[p].k = "n" THEN [n |-> 0, s |-> 0] ELSE view.dims[AxisOf(x, p)], x[p])]))
+NoDim == [n |-> 0, s |-> 0]
+ApplyRef_(view, x) ==
+  Combine(view, Seqify([p \in DOMAIN x |-> AxisRef(IF x[p].k = "n" THEN NoDim ELSE view.dims[AxisOf(x, p)], x[p])]))
+ApplyRef(view, e) == ApplyRef_(view, Expand(e, Len(view.dims)))
 
+ApplyImpl_(view, x, fc, fd) ==
+  Combine(view, Seqify([p \in DOMAIN x |-> AxisImpl(IF x[p].k = "n" THEN NoDim ELSE view.dims[AxisOf(x, p)], x[p], fc, fd)]))
 ApplyImpl(view, e, path, fc, fd) ==
-  LET x == IF path = "typed" THEN UnellC(e, Len(view.dims)) ELSE UnellR(e, Len(view.dims))
-  IN Combine(view, Seqify([p \in DOMAIN x |-> AxisImpl(IF x[p].k = "n" THEN [n |-> 0, s |-> 0] ELSE view.dims[AxisOf(x, p)], x[p], fc, fd)]))
+  ApplyImpl_(view, IF path = "typed" THEN UnellC(e, Len(view.dims)) ELSE UnellR(e, Len(view.dims)), fc, fd)
 
 \* what can be observed of a result
 Obs(r) == IF r.err # "" THEN [err |-> r.err, shape |-> <<>>, strides |-> <<>>, el |-> <<>>]
@@ -287,7 +287,8 @@ VARIABLES init,   \* <<lens, lays>> of the input buffer
 vars == <<init, lane, prev, view, hist, exp>>
 
 NoExp == [err |-> "", shape |-> <<>>, strides |-> <<>>, el |-> <<>>, hz |-> "none",
-          perr |-> "", pshape |-> <<>>, pstrides |-> <<>>, pel |-> <<>>]
+          perr |-> "", pshape |-> <<>>, pstrides |-> <<>>, pel |-> <<>>, safe |-> TRUE,
+          nbs |-> FALSE, nbe |-> FALSE, big |-> FALSE]
 
 Init == /\ init \in Inits
         /\ lane \in Lanes(init)
@@ -296,17 +297,26 @@ Init == /\ init \in Inits
         /\ hist = <<>>
         /\ exp = NoExp
 
-Step(e) ==
-  LET r == ApplyRef(view, e)
-      o == Obs(r)
-      hz == Hazard(view, e, o)
-      p == ImplObs(view, e, "typed", FALSE, FALSE)
-  IN /\ prev' = view
-     /\ view' = IF r.err = "" THEN [off |-> r.off, dims |-> r.dims] ELSE view
-     /\ hist' = Append(hist, e)
-     /\ exp' = [err |-> o.err, shape |-> o.shape, strides |-> o.strides, el |-> o.el, hz |-> hz,
-                perr |-> p.err, pshape |-> p.shape, pstrides |-> p.strides, pel |-> p.el]
-     /\ UNCHANGED <<init, lane>>
+MkExp_(o, hz, p, x, dims, base) ==
+  [err |-> o.err, shape |-> o.shape, strides |-> o.strides, el |-> o.el, hz |-> hz,
+   perr |-> p.err, pshape |-> p.shape, pstrides |-> p.strides, pel |-> p.el,
+   \* the code as it is stays inside the padded base (otherwise the binding must not run the case)
+   safe |-> \A j \in DOMAIN p.el : p.el[j] >= 0 /\ p.el[j] < base,
+   \* facts about the case that the root causes of the hazards refer to (x: the expanded expression)
+   nbs |-> \E q \in DOMAIN x : x[q].k = "s" /\ x[q].c # NoneV /\ x[q].c < 0       \* negative step, start below -extent
+                               /\ x[q].a # NoneV /\ x[q].a < -dims[AxisOf(x, q)].n,
+   nbe |-> \E q \in DOMAIN x : x[q].k = "s" /\ x[q].c # NoneV /\ x[q].c < 0       \* negative step, stop below -extent
+                               /\ x[q].b # NoneV /\ x[q].b < -dims[AxisOf(x, q)].n,
+   big |-> \E q \in DOMAIN x : x[q].k = "s" /\ x[q].c # NoneV /\ Abs(x[q].c) >= 2]
+Step__(e, r, o) ==
+  /\ prev' = view
+  /\ view' = IF r.err = "" THEN [off |-> r.off, dims |-> r.dims] ELSE view
+  /\ hist' = Append(hist, e)
+  /\ exp' = MkExp_(o, Hazard(view, e, o), ImplObs(view, e, "typed", FALSE, FALSE), Expand(e, Len(view.dims)),
+                   view.dims, BaseSize(init[1]))
+  /\ UNCHANGED <<init, lane>>
+Step_(e, r) == Step__(e, r, Obs(r))
+Step(e) == Step_(e, ApplyRef(view, e))
 
 Open == Len(hist) < MaxDepth /\ exp.err = "" /\ exp.hz = "none" /\ view.dims # <<>>
 
@@ -328,22 +338,25 @@ SliceItems == {p \in DOMAIN op : op[p].k = "s" /\ op[p].c # 0}
 \* the reference normalisation selects exactly the indices start + m*step that lie before `stop`
 \* in the direction of the step, all of them inside the axis (declarative reading of the
 \* sequence-slicing rule of the language reference)
+RefSound_(n, r, a, b) ==
+  /\ Cardinality({x \in 0..(n - 1) : \E m \in 0..n : x = r.start + m * r.step /\ (IF r.step > 0 THEN x < r.stop ELSE x > r.stop)}) = r.len
+  /\ \A m \in 0..(r.len - 1) : /\ 0 <= r.start + m * r.step /\ r.start + m * r.step < n
+                               /\ (IF r.step > 0 THEN r.start + m * r.step < r.stop ELSE r.start + m * r.step > r.stop)
+  /\ (a = NoneV /\ b = NoneV) => r.len = (n + Abs(r.step) - 1) \div Abs(r.step)
 RefSound ==
   (Stepped /\ Len(prev.dims) = 1 /\ Len(op) = 1 /\ op[1].k = "s" /\ op[1].c # 0) =>
-    LET n == prev.dims[1].n
-        r == SliceRef(n, op[1].a, op[1].b, op[1].c)
-        sel == {x \in 0..(n - 1) : \E m \in 0..n : x = r.start + m * r.step /\ (IF r.step > 0 THEN x < r.stop ELSE x > r.stop)}
-    IN /\ Cardinality(sel) = r.len
-       /\ \A m \in 0..(r.len - 1) : r.start + m * r.step \in sel
-       /\ (op[1].a = NoneV /\ op[1].b = NoneV) => r.len = (n + Abs(r.step) - 1) \div Abs(r.step)
+    RefSound_(prev.dims[1].n, SliceRef(prev.dims[1].n, op[1].a, op[1].b, op[1].c), op[1].a, op[1].b)
 
 \* the reference never leaves the input buffer, the result of a slice is a sub-multiset of its operand
-RefInBuffer ==
-  Stepped => LET all == {Elems(prev.off, prev.dims)[j] : j \in DOMAIN Elems(prev.off, prev.dims)}
-             IN \A j \in DOMAIN exp.el : exp.el[j] \in all
+SeqRange_(q) == {q[j] : j \in DOMAIN q}
+Subset_(q, all) == \A j \in DOMAIN q : q[j] \in all
+RefInBuffer == Stepped => Subset_(exp.el, SeqRange_(Elems(prev.off, prev.dims)))
 
-\* even the deviating views stay inside the padded base: the prediction is deterministic
-PredInBase == Stepped => \A j \in DOMAIN exp.pel : exp.pel[j] >= 0 /\ exp.pel[j] < BaseSize(init[1])
+\* on the input buffers themselves even the deviating views of the hazards stay inside the padded
+\* base, so the prediction is deterministic (deeper in a chain the strides outgrow the padding:
+\* such cases carry safe = FALSE and are not executed)
+PredInBase == /\ Len(hist) = 1 => exp.safe
+              /\ exp.hz = "none" => exp.safe
 
 \* with both repairs the transcription agrees with the reference on every path
 FixedImplAgrees == Stepped => \A path \in Paths(op) : ImplObs(prev, op, path, TRUE, TRUE) = Obs(ApplyRef(prev, op))
@@ -351,19 +364,13 @@ NoUnexplained == exp.hz # "unexplained"
 
 \* hazards lie only where the root causes say (this keeps the known-finding matchers narrow)
 HazardNecessary ==
-  Stepped =>
-    LET x == Expand(op, Len(prev.dims))
-        nOf(p) == prev.dims[AxisOf(x, p)].n
-        sl == {p \in DOMAIN x : x[p].k = "s" /\ x[p].c # 0 /\ x[p].c # NoneV}
-    IN /\ exp.hz \in {"clamp", "clamp+div"} =>
-            \E p \in sl : x[p].c < 0 /\ ((x[p].a # NoneV /\ x[p].a < -nOf(p)) \/ (x[p].b # NoneV /\ x[p].b < -nOf(p)))
-       /\ exp.hz \in {"div", "clamp+div"} => \E p \in sl : Abs(x[p].c) >= 2
+  /\ exp.hz \in {"clamp", "clamp+div"} => (exp.nbs \/ exp.nbe)
+  /\ exp.hz \in {"div", "clamp+div"} => exp.big
 
 \* the two transcribed ellipsis expansions agree with the reference expansion
 UnellipsifyOK ==
-  Stepped => LET nd == Len(prev.dims) IN
-             /\ UnellC(op, nd) = Expand(op, nd)
-             /\ ~HasNone(op) => UnellR(op, nd) = Expand(op, nd)
+  Stepped => /\ UnellC(op, Len(prev.dims)) = Expand(op, Len(prev.dims))
+             /\ ~HasNone(op) => UnellR(op, Len(prev.dims)) = Expand(op, Len(prev.dims))
 
 \* typed and object path are modelled to agree (they share the per-dimension function)
 PathsAgree == (Stepped /\ "object" \in Paths(op)) => ImplObs(prev, op, "object", FALSE, FALSE) = ImplObs(prev, op, "typed", FALSE, FALSE)
@@ -372,8 +379,13 @@ PathsAgree == (Stepped /\ "object" \in Paths(op)) => ImplObs(prev, op, "object",
 ImplAgrees == Stepped => ImplObs(prev, op, "typed", FALSE, FALSE) = Obs(ApplyRef(prev, op))
 
 ItemJ(it) == <<it.k, it.a, it.b, it.c>>
-Publish == (Dump /\ Stepped) =>
-  PrintT("@@" \o ToJson([lens |-> init[1], lays |-> init[2],
-                         hist |-> [h \in DOMAIN hist |-> [p \in DOMAIN hist[h] |-> ItemJ(hist[h][p])]],
-                         exp |-> exp]))
+Publish ==
+  Dump =>
+    IF Stepped
+    THEN PrintT("@@" \o ToJson([lens |-> init[1], lays |-> init[2],
+                                hist |-> [h \in DOMAIN hist |-> [p \in DOMAIN hist[h] |-> ItemJ(hist[h][p])]],
+                                exp |-> exp]))
+    ELSE LET o == Obs([err |-> "", off |-> view.off, dims |-> view.dims])      \* the input buffer itself
+         IN PrintT("@@" \o ToJson([input |-> TRUE, lens |-> init[1], lays |-> init[2], off |-> view.off,
+                                    shape |-> o.shape, strides |-> o.strides, el |-> o.el, base |-> BaseSize(init[1])]))
 =============================================================================
